@@ -1,7 +1,10 @@
 """C13 — link_partial re-links a frame range without corrupting labels elsewhere.
 
 One case = one table (rows, positions on the 1/8 grid, a VALID old labelling: non-negative, unique
-per frame, no gaps), a link_range and a search range.  Per case:
+per frame, no gaps), a link_range and a search range; in the `opts` stream additionally one choice
+for every option of link_partial's signature and for the layout of the table (`inp["opts"]`, see
+`spec_of` / `gen_opts`: column names, dtypes, label magnitude, index, linker kwargs).  Labels are
+exact Python ints throughout (never floats).  Per case:
 
   implementation : `trackpy.link_partial` from the tree under test; `reconnect_traj_patch` is wrapped
                    (from here, no source edit) to capture the table it receives: that gives the
